@@ -320,8 +320,11 @@ def plan_restart(w: World, op: dict) -> Plan:
     user_meta = op.get("meta")
     if user_meta:
         kw["meta"] = dict(user_meta)
-    user_keys = bool(op.get("user_keys")) and op.get("key_map") == "off" and not mt.typed \
+    user_keys = bool(op.get("user_keys")) and not mt.typed \
         and not class_style and not no_mapper and not has_fs_data
+    # a field name that equals a short key of the key map in use
+    user_keys_collide = user_keys and op.get("key_map", "default") != "off" \
+        and any(not isinstance(m.data, str) for m in mt.root.iter_pre())
     if not class_style and not no_mapper:
         kw["mapper"] = _ser(w, op.get("mapper_style", "inplace_ret"), user_keys=user_keys)
     if comp is not None:
@@ -329,6 +332,8 @@ def plan_restart(w: World, op: dict) -> Plan:
     trigger = "restart/file/" + target_kind
     if comp:
         trigger += "/zip"
+    if user_keys_collide:
+        trigger += "/user-key-collides"
     # probes for rare shapes
     seen = {}
     for m in mt.root.iter_pre():
